@@ -114,6 +114,21 @@ Proof.
   destruct (c_max_attempts (j_cfg j) =? 0); reflexivity.
 Qed.
 
+(* C10 on the generated Job._exec of both front ends: whatever the callback does, the call returns normally, attempts
+   grows by one, failed_attempts grows by one exactly when the callback raised, nothing else of the job changes; so
+   failed_attempts <= attempts is preserved *)
+Theorem gen_exec_counts j raises :
+  exists pj, GenJobState.thr_job_exec (py_of_job j) raises = Ok pj /\
+             GenJobState.aio_job_exec (py_of_job j) raises = Ok pj /\
+             pj_attempts pj = j_attempts j + 1 /\
+             pj_failed_attempts pj = j_failed j + (if raises then 1 else 0) /\
+             pj = py_of_job (job_run j raises) /\
+             (j_failed j <= j_attempts j -> pj_failed_attempts pj <= pj_attempts pj).
+Proof.
+  exists (py_of_job (job_run j raises)). rewrite tie_thr_job_exec, tie_aio_job_exec.
+  repeat split; try reflexivity; destruct raises; cbn; lia.
+Qed.
+
 Print Assumptions gen_first_due.
 Print Assumptions gen_advance.
 Print Assumptions gen_skip.
@@ -121,3 +136,4 @@ Print Assumptions gen_init_ok.
 Print Assumptions gen_init_err.
 Print Assumptions gen_calc_ok.
 Print Assumptions gen_has_attempts.
+Print Assumptions gen_exec_counts.
